@@ -349,13 +349,18 @@ pub fn import_files(p: &Program) -> Vec<(String, String)> {
 /// writes the files a case imports into a scratch directory of the calling thread and returns
 /// the program text with the directory filled in
 pub fn materialise(text: &str, case: &serde_json::Value) -> String {
+    materialise_in(text, case, "")
+}
+
+/// as `materialise`, into a directory of its own (`tag` distinguishes it from the thread's usual one)
+pub fn materialise_in(text: &str, case: &serde_json::Value, tag: &str) -> String {
     let Some(files) = case["files"].as_object() else {
         return text.to_string();
     };
     if files.is_empty() {
         return text.to_string();
     }
-    let dir = std::env::temp_dir().join(format!("vcheck-imports-{}-{:?}", std::process::id(), std::thread::current().id()).replace(['(', ')'], ""));
+    let dir = std::env::temp_dir().join(format!("vcheck-imports-{}-{:?}{tag}", std::process::id(), std::thread::current().id()).replace(['(', ')'], ""));
     // no file of an earlier case of this thread may be picked up by accident
     let _ = std::fs::remove_dir_all(&dir);
     let _ = std::fs::create_dir_all(&dir);
